@@ -235,7 +235,7 @@ Proof.
   - breflect. congruence.
   - exact (IH eq_refl v H).
 Qed.
-Lemma find_last_partial {V} (f : list N -> option V) (ps : list (list N * V)) k :
+Lemma find_last_pfun {V} (f : list N -> option V) (ps : list (list N * V)) k :
   (forall k' v, In (k', v) ps -> f k' = Some v) ->
   (forall v, f k = Some v -> In (k, v) ps) ->
   find_last ps k = f k.
